@@ -492,6 +492,36 @@ pub fn c09(ctx: &mut Ctx) {
         }
         ctx.count("junk_directly_after_name");
     }
+    // Classic: an invalid character INSIDE a binder name (λname.), in the first binder or in a later one: the first
+    // character of every binder name must be a letter, the others alphanumeric, up to the dot
+    for _ in 0..n {
+        let good = ["λx.", "\\y1.", "λab.", "(", "x ", " "];
+        let k = ctx.rng.below(4);
+        let mut sx = String::new();
+        for _ in 0..k {
+            let g: &str = *ctx.rng.pick(&good[..]);
+            sx.push_str(g);
+        }
+        sx.push(if ctx.rng.chance(1, 2) { 'λ' } else { '\\' });
+        // a bad binder: (prefix of valid name characters, offending character)
+        let (pre, c): (&str, char) = *ctx.rng.pick(&[("", '1'), ("", '9'), ("", ' '), ("", '('), ("", '-'), ("x", ' '), ("x", '-'), ("ab", '('),
+            ("y1", ')'), ("x", 'λ'), ("", '\\'), ("a", '#'), ("", '\u{0660}'), ("z", '\t')][..]);
+        // `xλ` is fine (λ is a letter): skip that combination, it is not an error
+        if c == 'λ' {
+            continue;
+        }
+        sx.push_str(pre);
+        let idx = sx.chars().count();
+        sx.push(c);
+        sx.push_str(if ctx.rng.chance(1, 2) { ".x" } else { "x. x" });
+        let line = format!("parse c {}", string_wire(&sx));
+        let r = ctx.op(&line);
+        ctx.nontrivial(&line);
+        if r != format!("err IC {} {}", idx, c as u32) {
+            ctx.fail("Classic: an invalid character inside a binder name is not reported as InvalidCharacter(index, char)", &[line.clone()]);
+        }
+        ctx.count("invalid_char_in_binder");
+    }
     // ---------------- Display of ParseError (string table with formatting of index and character)
     for line in ["errmsg parse IE", "errmsg parse EE"] {
         ctx.op(line);
